@@ -88,11 +88,14 @@ def check(ctx):
     fn = q.fn1(P, "TypeSubstitutes::parse_path_param_mapping", S)
     if fn is not None:
         t = show(Norm(fn).term(fn["body"]), 10 ** 6)
-        for kind, frag in (("EmptySubstitutePath", "!let v1::Some(syn::PathSegment{arguments:$})=Punctuated::last(P0.segments)=>return Err(substitutes::error(Spanned::span(P0),TypeSubstitutionErrorKind::EmptySubstitutePath))"),
+        for kind, frag in (("EmptySubstitutePath", "else{Err(substitutes::error(Spanned::span(P0),TypeSubstitutionErrorKind::EmptySubstitutePath))}"),
                            ("ExpectedAngleBracketGenerics", "PathArguments::Parenthesized($)=>return Err(substitutes::error("),
                            ("InvalidFromType", "ok_or(substitutes::get_valid_from_substitution_type(C1_0),substitutes::error(Spanned::span(C1_0),TypeSubstitutionErrorKind::InvalidFromType))"),
                            ("InvalidToType", "ok_or(substitutes::get_valid_to_substitution_type(C1_0),substitutes::error(Spanned::span(C1_0),TypeSubstitutionErrorKind::InvalidToType))")):
-            ctx.expect(frag in t, "C16.4", "error-guard/" + kind, fn["sp"], "%s at its documented guard" % kind, "guard for %s changed" % kind)
+            ok = frag in t
+            if kind == "EmptySubstitutePath":
+                ok = t.startswith("if(let v1::Some(syn::PathSegment{arguments:$})=Punctuated::last(P0.segments)){") and t.endswith(frag)
+            ctx.expect(ok, "C16.4", "error-guard/" + kind, fn["sp"], "%s at its documented guard" % kind, "guard for %s changed" % kind)
     # K15 container facts and K16-lite type-level facts from the ADT table
     with ctx.only(lambda k: k.startswith("container/") and "ModuleIR" not in k):
         c06.containers(ctx)
